@@ -279,23 +279,38 @@ def lineKeys (ws : List String) : List Nat :=
 def addKeys (ks new : List Nat) : List Nat :=
   new.foldl (fun acc k => if acc.contains k then acc else k :: acc) ks
 
+/-- `replq …` (same words as `repl …`): the two-round replenish RPC seen from the host while other
+streams are served in between — the handler decides (quote, checks, revision) on the state at the
+time of the request and the contract stays locked; the answer is printed now, the effect is kept.
+`replc` applies the kept effect to the state as it is by then (`apply`, the same function the
+theorems are about; cf. `C08.replenish_credits_the_quote`). -/
 def rhpHost : Model where
-  σ := Host × List Nat
+  σ := Host × List Nat × Effect
   init := fun ws => match ws with
-    | [hk, now, tip] => do some (Host.init (← nat? hk) (← nat? now) (← nat? tip), [])
+    | [hk, now, tip] => do some (Host.init (← nat? hk) (← nat? now) (← nat? tip), [], .none)
     | _ => none
-  step := fun (h, ks) ws =>
+  step := fun (h, ks, pend) ws =>
     let ks := addKeys ks (lineKeys ws)
+    match ws with
+    | "replq" :: rest =>
+      match parseOp h ("repl" :: rest) with
+      | some (.op (.rpc r)) =>
+        let d := Rhp.decide h r
+        let last := ws.getLast?.getD ""
+        ((h, ks, d.eff), fmtOut d.out d.evs (last == "drop" || last.endsWith "!"))
+      | _ => ((h, ks, pend), "bad-op")
+    | ["replc"] => ((flatten ks (apply h pend), ks, .none), "ok")
+    | _ =>
     match adoptOp h ws with
-    | some h' => ((flatten ks h', ks), "ok")
+    | some h' => ((flatten ks h', ks, pend), "ok")
     | none =>
     match parseOp h ws with
-    | none => ((h, ks), "bad-op")
-    | some (.obs items) => ((h, ks), " ".intercalate (items.map (fmtObs h)))
+    | none => ((h, ks, pend), "bad-op")
+    | some (.obs items) => ((h, ks, pend), " ".intercalate (items.map (fmtObs h)))
     | some (.op o) =>
       let (h', out, evs) := stepOp h o
       let last := ws.getLast?.getD ""
-      ((flatten ks h', ks), fmtOut out evs (last == "drop" || last.endsWith "!"))
+      ((flatten ks h', ks, pend), fmtOut out evs (last == "drop" || last.endsWith "!"))
 
 /-- the client-side normalisation alone (`rpc.go:596-600`) and the list functions, for the
 exhaustive list-level correspondence of C09 -/
